@@ -70,6 +70,7 @@ def generate(rng, tier):
                 cases.append({"regime": regime, "recs": recs, "uri": "u1", "modality": "m",
                               "sup": ["seg", [30 * w_, 40 * w_]] if rng.random() < 0.5 else ["tl", [[30 * w_, 40 * w_], [90 * w_, 95 * w_]]]})
     cases += gen.decimal_copies(rng, cases, (1500 if tier == "thorough" else 150))
+    cases += gen.p3_copies(rng, cases, ['recs', 'sup'], (1000 if tier == "thorough" else 120))
     cases += gen.far_copies(rng, cases, ['recs', 'sup'], (400 if tier == "thorough" else 60))
     return {"cases": cases, "meta": {"exhaustive": False,
                                      "sizes": gen.stats(cases, {"n_records": lambda c: len(c["recs"]),
